@@ -142,7 +142,7 @@ inductive ChildTr (cfg : Cfg α β) (j : Nat) (c : Child β) : Child β → List
       ChildTr cfg j c { c with phase := .finished, lq := c.lq ++ [.sentinel] } []
   | sentinelFault (code : Nat) : c.phase = .queued → queuedFault (cfg.fault j) true = some code →
       ChildTr cfg j c { c with phase := .exited code } []
-  | exit : c.phase = .finished → ChildTr cfg j c { c with phase := .exited 0 } []
+  | exit : c.phase = .finished → ChildTr cfg j c { c with phase := .exited (exitCode (cfg.fault j)) } []
 
 theorem childStep_spec (cfg : Cfg α β) (s : State M β) (j : Nat) :
     ((¬ j < cfg.nchild ∨ isExited (s.ws j).phase = true) ∧ childStep cfg s j = s) ∨
@@ -193,49 +193,69 @@ theorem childStep_spec (cfg : Cfg α β) (s : State M β) (j : Nat) :
 
 /-- the possible moves of the master (gather loop of the current code) -/
 inductive MasterTr (cfg : Cfg α β) (s : State (MPhase β) β) : State (MPhase β) β → Prop
-  | ownTask (t : Nat) (x : α) : s.m = .own t → (cfg.chunk 0)[t]? = some x →
+  | ownTask (t : Nat) (x : α) : s.m = .own t → (cfg.chunk 0)[t]? = some x → cfg.mfault ≠ some t →
       MasterTr cfg s { s with m := .own (t+1), acc0 := s.acc0 ++ [cfg.f 0 t x] }
-  | ownEnd (t : Nat) : s.m = .own t → (cfg.chunk 0)[t]? = none → MasterTr cfg s { s with m := .gather }
+  | ownRaise (t : Nat) (x : α) : s.m = .own t → (cfg.chunk 0)[t]? = some x → cfg.mfault = some t →
+      MasterTr cfg s (raiseStop s)
+  | ownEnd (t : Nat) : s.m = .own t → (cfg.chunk 0)[t]? = none →
+      MasterTr cfg s { s with m := .gather, ended := snapG cfg s }
   | pop (j : Nat) (r : List β) (rest : List (Nat × List β)) : s.m = .gather →
       filled cfg.nchild s.ws < cfg.nchild → s.rq = (j, r) :: rest → s.poison ≠ some 0 →
       MasterTr cfg s { setChild s j { s.ws j with got := some r } with
-        rq := rest, m := .drain j, poison := s.poison.map (· - 1) }
+        rq := rest, m := .drain j, poison := s.poison.map (· - 1), ended := isExited (s.ws j).phase }
   | blocked : s.m = .gather → filled cfg.nchild s.ws < cfg.nchild → s.poison = some 0 →
       MasterTr cfg s { s with m := .recv }
-  | missing (j : Nat) : s.m = .gather → filled cfg.nchild s.ws < cfg.nchild → s.rq = [] → j < cfg.nchild →
-      (s.ws j).got = none → isExited (s.ws j).phase = true → MasterTr cfg s { s with m := .error }
+  | missing : s.m = .gather → filled cfg.nchild s.ws < cfg.nchild → s.rq = [] → s.ended = true →
+      MasterTr cfg s (raiseStop s)
+  | resnap : s.m = .gather → filled cfg.nchild s.ws < cfg.nchild → s.rq = [] → s.ended = false →
+      snapG cfg s = true → MasterTr cfg s { s with ended := true }
   | toJoin : s.m = .gather → ¬ filled cfg.nchild s.ws < cfg.nchild → MasterTr cfg s { s with m := .join }
   | sentinel (j : Nat) (rest : List LogItem) : s.m = .drain j → j < cfg.nchild →
       (s.ws j).lq = .sentinel :: rest →
-      MasterTr cfg s { setChild s j { s.ws j with lq := rest } with m := .gather }
+      MasterTr cfg s { setChild s j { s.ws j with lq := rest } with m := .gather, ended := snapG cfg s }
   | record (j : Nat) (rest : List LogItem) : s.m = .drain j → j < cfg.nchild →
-      (s.ws j).lq = .record :: rest → MasterTr cfg s (setChild s j { s.ws j with lq := rest })
-  | logsLost (j : Nat) : s.m = .drain j → j < cfg.nchild → (s.ws j).lq = [] →
-      isExited (s.ws j).phase = true → MasterTr cfg s { s with m := .error }
+      (s.ws j).lq = .record :: rest →
+      MasterTr cfg s { setChild s j { s.ws j with lq := rest } with ended := isExited (s.ws j).phase }
+  | logsLost (j : Nat) : s.m = .drain j → j < cfg.nchild → (s.ws j).lq = [] → s.ended = true →
+      MasterTr cfg s (raiseStop s)
+  | drainSnap (j : Nat) : s.m = .drain j → j < cfg.nchild → (s.ws j).lq = [] → s.ended = false →
+      isExited (s.ws j).phase = true → MasterTr cfg s { s with ended := true }
   | badPid (j : Nat) : s.m = .drain j → ¬ j < cfg.nchild → MasterTr cfg s { s with m := .error }
   | done (r : List β) : s.m = .join → (∀ j < cfg.nchild, isExited (s.ws j).phase = true) →
-      collect (filled cfg.nchild s.ws) s.ws = some r → MasterTr cfg s { s with m := .done (s.acc0 ++ r) }
+      allZero cfg s = true → collect (filled cfg.nchild s.ws) s.ws = some r →
+      MasterTr cfg s { s with m := .done (s.acc0 ++ r) }
   | keyError : s.m = .join → (∀ j < cfg.nchild, isExited (s.ws j).phase = true) →
-      collect (filled cfg.nchild s.ws) s.ws = none → MasterTr cfg s { s with m := .error }
+      allZero cfg s = true → collect (filled cfg.nchild s.ws) s.ws = none →
+      MasterTr cfg s { s with m := .error }
+  | badExit : s.m = .join → (∀ j < cfg.nchild, isExited (s.ws j).phase = true) →
+      allZero cfg s = false → MasterTr cfg s { s with m := .error }
 
 /-- why the master does not move: it sleeps in the polling loop, waits for log records, waits in
-`join`, or `parallelize` has ended -/
+`join`, `parallelize` has ended, or it is blocked in a receive -/
 inductive Waiting (cfg : Cfg α β) (s : State (MPhase β) β) : Prop
-  | results : s.m = .gather → filled cfg.nchild s.ws < cfg.nchild → s.rq = [] →
+  | results : s.m = .gather → filled cfg.nchild s.ws < cfg.nchild → s.rq = [] → s.ended = false →
       (∀ j < cfg.nchild, (s.ws j).got = none → isExited (s.ws j).phase = false) → Waiting cfg s
-  | logs (j : Nat) : s.m = .drain j → j < cfg.nchild → (s.ws j).lq = [] →
+  | logs (j : Nat) : s.m = .drain j → j < cfg.nchild → (s.ws j).lq = [] → s.ended = false →
       isExited (s.ws j).phase = false → Waiting cfg s
   | join (j : Nat) : s.m = .join → j < cfg.nchild → isExited (s.ws j).phase = false → Waiting cfg s
   | terminal : s.m.terminal = true → Waiting cfg s
   | recv : s.m = .recv → Waiting cfg s
+
+theorem state_eta_ended (s : State M β) (h : s.ended = b) : { s with ended := b } = s := by
+  cases s; simp_all
 
 theorem masterStep_spec (cfg : Cfg α β) (s : State (MPhase β) β) :
     (masterStep cfg s = s ∧ Waiting cfg s) ∨ MasterTr cfg s (masterStep cfg s) := by
   cases hm : s.m with
   | own t =>
     cases hx : (cfg.chunk 0)[t]? with
-    | some x => right; have := MasterTr.ownTask (cfg := cfg) (s := s) t x hm hx; simpa [masterStep, hm, ownStep, hx] using this
-    | none => right; have := MasterTr.ownEnd (cfg := cfg) (s := s) t hm hx; simpa [masterStep, hm, ownStep, hx] using this
+    | some x =>
+      by_cases hmf : cfg.mfault = some t
+      · right; have := MasterTr.ownRaise (cfg := cfg) (s := s) t x hm hx hmf
+        simpa [masterStep, hm, hx, hmf] using this
+      · right; have := MasterTr.ownTask (cfg := cfg) (s := s) t x hm hx hmf
+        simpa [masterStep, hm, hx, hmf] using this
+    | none => right; have := MasterTr.ownEnd (cfg := cfg) (s := s) t hm hx; simpa [masterStep, hm, hx] using this
   | gather =>
     by_cases hf : filled cfg.nchild s.ws < cfg.nchild
     · by_cases hpz : s.poison = some 0
@@ -247,25 +267,35 @@ theorem masterStep_spec (cfg : Cfg α β) (s : State (MPhase β) β) :
         right; have := MasterTr.pop (cfg := cfg) (s := s) j r rest hm hf hrq hpz
         simpa [masterStep, hm, hf, hrq, hpz] using this
       | nil =>
-        by_cases ha : anyTo cfg.nchild (fun j => (s.ws j).got.isNone && isExited (s.ws j).phase) = true
-        · obtain ⟨j, hj, hp⟩ := (anyTo_iff _ _).mp ha
-          simp only [Bool.and_eq_true, Option.isNone_iff_eq_none] at hp
-          right; have := MasterTr.missing (cfg := cfg) (s := s) j hm hf hrq hj hp.1 hp.2
-          simpa [masterStep, hm, hf, hrq, ha, hpz] using this
-        · left; refine ⟨by simp [masterStep, hm, hf, hrq, ha, hpz], .results hm hf hrq ?_⟩
-          intro j hj hg
-          by_contra he
-          exact ha ((anyTo_iff _ _).mpr ⟨j, hj, by simp [hg, Bool.not_eq_false _ ▸ he]⟩)
+        by_cases he : s.ended = true
+        · right; have := MasterTr.missing (cfg := cfg) (s := s) hm hf hrq he
+          simpa [masterStep, hm, hf, hrq, hpz, he] using this
+        · have he' : s.ended = false := by simpa using he
+          by_cases ha : snapG cfg s = true
+          · right; have := MasterTr.resnap (cfg := cfg) (s := s) hm hf hrq he' ha
+            simpa [masterStep, hm, hf, hrq, hpz, he', ha] using this
+          · have ha' : snapG cfg s = false := by simpa using ha
+            left; refine ⟨?_, .results hm hf hrq he' ?_⟩
+            · simp [masterStep, hm, hf, hrq, hpz, he', ha']; exact state_eta_ended s he'
+            · intro j hj hg
+              by_contra hex
+              exact ha ((anyTo_iff _ _).mpr ⟨j, hj, by simp [hg, Bool.not_eq_false _ ▸ hex]⟩)
     · right; have := MasterTr.toJoin (cfg := cfg) (s := s) hm hf
       simpa [masterStep, hm, hf] using this
   | drain j =>
     by_cases hj : j < cfg.nchild
     · cases hlq : (s.ws j).lq with
       | nil =>
-        by_cases he : isExited (s.ws j).phase = true
+        by_cases he : s.ended = true
         · right; have := MasterTr.logsLost (cfg := cfg) (s := s) j hm hj hlq he
           simpa [masterStep, hm, hj, hlq, he] using this
-        · left; exact ⟨by simp [masterStep, hm, hj, hlq, he], .logs j hm hj hlq (by simpa using he)⟩
+        · have he' : s.ended = false := by simpa using he
+          by_cases hex : isExited (s.ws j).phase = true
+          · right; have := MasterTr.drainSnap (cfg := cfg) (s := s) j hm hj hlq he' hex
+            simpa [masterStep, hm, hj, hlq, he', hex] using this
+          · have hex' : isExited (s.ws j).phase = false := by simpa using hex
+            left; refine ⟨?_, .logs j hm hj hlq he' hex'⟩
+            simp [masterStep, hm, hj, hlq, he', hex']; exact state_eta_ended s he'
       | cons it rest =>
         cases it with
         | record => right; have := MasterTr.record (cfg := cfg) (s := s) j rest hm hj hlq
@@ -277,12 +307,16 @@ theorem masterStep_spec (cfg : Cfg α β) (s : State (MPhase β) β) :
   | join =>
     by_cases ha : allTo cfg.nchild (fun j => isExited (s.ws j).phase) = true
     · have ha' := (allTo_iff _ _).mp ha
-      cases hc : collect (filled cfg.nchild s.ws) s.ws with
-      | some r => right; have := MasterTr.done (cfg := cfg) (s := s) r hm ha' hc
-                  simpa [masterStep, hm, joinStep, ha, hc] using this
-      | none => right; have := MasterTr.keyError (cfg := cfg) (s := s) hm ha' hc
-                simpa [masterStep, hm, joinStep, ha, hc] using this
-    · left; refine ⟨by simp [masterStep, hm, joinStep, ha], ?_⟩
+      by_cases hz : allZero cfg s = true
+      · cases hc : collect (filled cfg.nchild s.ws) s.ws with
+        | some r => right; have := MasterTr.done (cfg := cfg) (s := s) r hm ha' hz hc
+                    simpa [masterStep, hm, ha, hz, hc] using this
+        | none => right; have := MasterTr.keyError (cfg := cfg) (s := s) hm ha' hz hc
+                  simpa [masterStep, hm, ha, hz, hc] using this
+      · have hz' : allZero cfg s = false := by simpa using hz
+        right; have := MasterTr.badExit (cfg := cfg) (s := s) hm ha' hz'
+        simpa [masterStep, hm, ha, hz'] using this
+    · left; refine ⟨by simp [masterStep, hm, ha], ?_⟩
       have : ¬ ∀ j < cfg.nchild, isExited (s.ws j).phase = true := fun h => ha ((allTo_iff _ _).mpr h)
       push Not at this
       obtain ⟨j, hj, he⟩ := this
